@@ -32,6 +32,7 @@ func (ex *Exec) modifiedIn(li *loopInfo) (cells map[*ssa.Alloc]bool, heaps map[s
 	addTrace := func() {
 		add("$tr", ArrS(SInt, SEvent))
 		add("$trlen", SInt)
+		add("$seq", SInt)
 	}
 	addAddr := func(a ssa.Value) {
 		switch x := a.(type) {
@@ -101,6 +102,7 @@ func (ex *Exec) modifiedIn(li *loopInfo) (cells map[*ssa.Alloc]bool, heaps map[s
 				if fn := x.Common().StaticCallee(); fn != nil && fn.Pkg != nil && strings.HasSuffix(fn.Pkg.Pkg.Path(), "goirc/logging") {
 					add("$log", ArrS(SInt, SEvent))
 					add("$loglen", SInt)
+					add("$seq", SInt)
 				}
 				ex.callEffects(x.Common(), heaps)
 			case *ssa.Defer:
@@ -243,6 +245,7 @@ func (ex *Exec) enterLoop(li *loopInfo) {
 		ex.cur.cells[c] = nv
 	}
 	preNext := ex.getHeap(ex.cur, "$nextref", SInt)
+	preSeq := ex.getHeap(ex.cur, "$seq", SInt)
 	preTrlen := map[string]*Term{}
 	preTr := map[string]*Term{}
 	for tr := range ex.V.db.Traces {
@@ -278,6 +281,9 @@ func (ex *Exec) enterLoop(li *loopInfo) {
 	li.headReach = headReach
 	if heaps["$nextref"] {
 		ex.assume(Ge(ex.getHeap(ex.cur, "$nextref", SInt), preNext))
+	}
+	if heaps["$seq"] {
+		ex.assume(Ge(ex.getHeap(ex.cur, "$seq", SInt), preSeq))
 	}
 	for tr, pl := range preTrlen {
 		nl := ex.getHeap(ex.cur, tr+"len", SInt)
